@@ -21,6 +21,9 @@ pub struct Case {
     /// sequence number, and after exhaustion
     #[serde(default)]
     pub boundary: bool,
+    /// Psk / AuthPsk with PskBundle::new("", "") (RFC 9180 defines no output there: R1 is not consulted)
+    #[serde(default)]
+    pub empty_bundle: bool,
 }
 
 pub struct C14;
@@ -52,9 +55,13 @@ impl Part for C14 {
                     let shapes_first = shapes[0];
                     for (pt_len, aad_len) in shapes {
                         tag += 1;
-                        v.push(Case { suite, mode, info_len, pt_len, aad_len, tag, boundary: false });
+                        v.push(Case { suite, mode, info_len, pt_len, aad_len, tag, boundary: false, empty_bundle: false });
+                        if mode.has_psk() && (pt_len, aad_len) == shapes_first {
+                            // the empty bundle is a legal PSK-mode input of this crate (C15)
+                            v.push(Case { suite, mode, info_len, pt_len: 7, aad_len: 2, tag, boundary: false, empty_bundle: true });
+                        }
                         if mode == Mode::Base && (pt_len, aad_len) == shapes_first && (t || suite.kdf == suite.kem.kdf()) {
-                            v.push(Case { suite, mode, info_len, pt_len: 5, aad_len: 3, tag, boundary: true });
+                            v.push(Case { suite, mode, info_len, pt_len: 5, aad_len: 3, tag, boundary: true, empty_bundle: false });
                         }
                     }
                 }
@@ -69,7 +76,7 @@ impl Part for C14 {
         let ops = suite_ops(c.suite);
         let k = keys(c.suite.kem, c.tag, cfg.seed);
         let info = bytes(Fill::Mix, c.info_len, 10, cfg.seed);
-        let m = mode_spec(c.mode, &k, &bytes(Fill::Mix, 32, 11, cfg.seed), &bytes(Fill::Mix, 22, 12, cfg.seed));
+        let m = if c.empty_bundle { mode_spec(c.mode, &k, b"", b"") } else { mode_spec(c.mode, &k, &bytes(Fill::Mix, 32, 11, cfg.seed), &bytes(Fill::Mix, 22, 12, cfg.seed)) };
         let pt = bytes(Fill::Mix, c.pt_len, 140, cfg.seed);
         let aad = bytes(Fill::Mix, c.aad_len, 141, cfg.seed);
         let nt = c.suite.aead.nt();
@@ -89,6 +96,8 @@ impl Part for C14 {
                 return out;
             }
         };
+        // (with an empty bundle R1's bytes are what the RFC formulas give if VerifyPSKInputs is skipped; the
+        // crate documents exactly that behaviour, so they are still the reference for composed == single-shot)
 
         // ---- sealing: composed ----
         let mut rng_c = ScriptRng::new(&script);
@@ -322,6 +331,9 @@ fn boundary_case(out: &mut CaseOut, _cfg: &Cfg, c: &Case, ops: &dyn crate::suite
 pub enum Case15 {
     /// PskBundle::new over a block of (psk length, psk_id length) pairs
     Bundle { psk_len: usize, fill: Fill },
+    /// PskBundle::new where every byte of psk / psk_id is the value `b` (the rule is about emptiness,
+    /// never about content: 00, whitespace, ff ... are ordinary bytes)
+    BundleBytes { b: u8 },
     /// the bundle's key and identifier are what enters the key schedule (vs R1), also with psk/psk_id
     /// of different lengths so that a swap is visible
     Schedule { suite: SuiteId, mode: Mode, psk_len: usize, psk_id_len: usize, tag: u64 },
@@ -348,6 +360,9 @@ impl Part for C15 {
             for fill in if t { vec![Fill::Zero, Fill::Ones, Fill::Mix] } else { vec![Fill::Zero, Fill::Mix] } {
                 v.push(Case15::Bundle { psk_len, fill });
             }
+        }
+        for b in 0..=255u8 {
+            v.push(Case15::BundleBytes { b });
         }
         let mut tag = 15000;
         for suite in crate::suites::all_suites() {
@@ -385,6 +400,28 @@ impl Part for C15 {
                     let ok = if valid { got == Obs::Ok(()) } else { got == Obs::Pre(HpkeError::InvalidPskBundle) };
                     if !ok {
                         out.fail(format!("PskBundle::new(|psk|={}, |psk_id|={}, fill {:?}): got {} want {}", psk_len, id_len, fill, got.class(), if valid { "Ok" } else { "Err(InvalidPskBundle)" }));
+                    }
+                }
+            }
+            Case15::BundleBytes { b } => {
+                out.outcome = "bundle-bytes".into();
+                let suite = SuiteId { kem: Kem::X25519, kdf: crate::refmodel::Kdf::Sha256, aead: Aead::ExportOnly };
+                let ops = suite_ops(suite);
+                let k = keys(Kem::X25519, 15_998, cfg.seed);
+                for (pl, il) in [(0usize, 0usize), (0, 1), (1, 0), (1, 1), (0, 3), (3, 0), (2, 3), (3, 1), (16, 2), (2, 16)] {
+                    for variant in 0..3 {
+                        // all bytes b / psk bytes b and id ordinary / id bytes b and psk ordinary
+                        let psk = if variant == 2 { bytes(Fill::Ramp, pl, 1, 7) } else { vec![*b; pl] };
+                        let psk_id = if variant == 1 { bytes(Fill::Ramp, il, 2, 9) } else { vec![*b; il] };
+                        let m = crate::suites::ModeSpec { kind: 1, psk, psk_id, sk_s: vec![], pk_s: vec![] };
+                        let mut rng = ScriptRng::new(&k.ikm_e);
+                        let got = ops.setup_sender(&m, &k.pk_r, b"", &mut rng).map(|_| ());
+                        out.transitions += 1;
+                        let valid = (pl == 0) == (il == 0);
+                        let ok = if valid { got == Obs::Ok(()) } else { got == Obs::Pre(HpkeError::InvalidPskBundle) };
+                        if !ok {
+                            out.fail(format!("PskBundle::new(|psk|={}, |psk_id|={}) with byte value {:#04x} (variant {}): got {} want {}", pl, il, b, variant, got.class(), if valid { "Ok" } else { "Err(InvalidPskBundle)" }));
+                        }
                     }
                 }
             }
